@@ -136,6 +136,11 @@ def families(eng, tier, seed):
                 if tier == "quick":
                     rnd = random.Random(hash((seed, name, ti, vi, fi)) & 0xFFFF); rnd.shuffle(tg); tg = sorted(tg[:4])
                 if tg: fams.append(make_family("retarget-%s-%d.%s.%d" % (name, ti, vi, fi), reg, STD, retarget=[(ti, vi, fi, tg)], symbolic=False))
+                if tg and tier == "thorough" and len(reg) <= 12:
+                    for vi2, fi2, f2 in sites:
+                        if (vi2, fi2) <= (vi, fi) or f2.get("type_name") in pnames or (f2.get("type_name") and "Box<" in f2["type_name"]): continue
+                        tg2 = admissible_targets(reg, ti, f2)
+                        if tg2: fams.append(make_family("retarget2-%s-%d.%s.%d+%s.%d" % (name, ti, vi, fi, vi2, fi2), reg, svs[1], retarget=[(ti, vi, fi, tg), (ti, vi2, fi2, tg2)], symbolic=False))
     return fams
 
 def confirm(v, real):
